@@ -2589,6 +2589,13 @@ BTreeType_setattro(PyTypeObject* type, PyObject* name, PyObject* value)
     }
 
     if (allowed) {
+        if (value == NULL) {
+            /* del cls.max_leaf_size: there is nothing to fall back to */
+            PyErr_Format(PyExc_TypeError,
+                         "cannot delete attribute %R of type '%s'",
+                         name, type->tp_name);
+            return -1;
+        }
         PyDict_SetItem(type->tp_dict, name, value);
         PyType_Modified(type);
         if (PyErr_Occurred()) {
